@@ -381,6 +381,33 @@ func (iw *isisWorld) link(i int, up bool) {
 	}
 }
 
+// flap delivers "down" and "up" for interface i from one goroutine without a pause.
+func (iw *isisWorld) flap(i int) {
+	ic := iw.cfg.Ifaces[i]
+	mk := func(st uint8) *simDevice {
+		return &simDevice{index: ic.Index, state: st, addrs: []*bnet.Prefix{bnet.NewPfx(bnet.IPv4FromOctets(10, ic.Net, 0, 1), 24).Ptr()}}
+	}
+	down, up := mk(device.IfOperDown), mk(device.IfOperUp)
+	iw.ds.known[ic.Name] = up
+	iw.linkUp[i] = true
+	for _, c := range iw.ds.clients[ic.Name] {
+		c := c
+		d1, d2 := *down, *up
+		iw.w.Go(fmt.Sprintf("DeviceUpdate(%s,down+up)", ic.Name), func() {
+			defer func() {
+				if r := recover(); r != nil {
+					iw.w.Env.Violate("C33", "panic_on_link_event", "DeviceUpdate(%s, down then up) panicked: %v", ic.Name, r)
+				}
+			}()
+			c.DeviceUpdate(&d1)
+			c.DeviceUpdate(&d2)
+		})
+	}
+	iw.w.Env.fault("link_down")
+	iw.w.Env.fault("link_up")
+	iw.w.Env.fault("link_flap")
+}
+
 func newISISWorld(w *World) *isisWorld {
 	cfg := w.Plan.ISIS
 	iw := &isisWorld{w: w, cfg: cfg, clk: bbclock.NewMock(), eth: make([]*simEth, len(cfg.Ifaces)), linkUp: make([]bool, len(cfg.Ifaces))}
@@ -468,7 +495,17 @@ func (iw *isisWorld) exec(kind string, i int, s *Step) {
 			}
 		}
 	case "is_link":
-		iw.link(s.N, s.On)
+		// "flap": link down and up again delivered back to back by one caller, nothing else runs in
+		// between (two plan steps so that every model sees down, then up; the first step does both)
+		steps := iw.w.Plan.Steps
+		switch {
+		case s.Label == "flap" && !s.On && i+1 < len(steps) && steps[i+1].Kind == "is_link" && steps[i+1].Label == "flap2" && steps[i+1].N == s.N:
+			iw.flap(s.N)
+		case s.Label == "flap2" && s.On && i > 0 && steps[i-1].Kind == "is_link" && steps[i-1].Label == "flap" && steps[i-1].N == s.N:
+			// done by the previous step
+		default:
+			iw.link(s.N, s.On)
+		}
 	case "is_hello":
 		n := iw.cfg.Nbrs[s.Peer]
 		iw.inject(n, iw.helloFrame(n, s.IS.Hold, s.IS.Adj))
